@@ -263,6 +263,11 @@ impl Interp {
                     // only the type checker knows: a non-nil argument reaching it is outside this evaluator
                     if cur.maybe_inferred && !a.is_nil() { return unsup("untyped function literal applied to a non-nil argument (parameter may be inferred)"); }
                     let param = if cur.nilary { nil() } else { a };
+                    // trigger of a recorded finding: a partial parameter type applied to a tuple that carries a named field at
+                    // another index than the partial type lists it
+                    if let (Some(Type::Tuple(pt)), RV::Tuple(tv)) = (&cur.def.parameter_type, &param) { if pt.is_partial {
+                        let mut k = 0; for f in &pt.fields { if let FieldType::Field { name: Some(n), .. } = f { if tv.fields.iter().position(|(l, _)| l.as_deref() == Some(n.as_str())) != Some(k) { self.bump("partial_parameter_with_a_field_at_another_index"); } k += 1; } }
+                    } }
                     // the declared parameter type is part of the program: an argument outside it makes the call ill-typed
                     if !cur.def.type_parameters.is_empty() { self.bump("generic_function_applied"); }
                     // (a generic function's type variables are not solved: they are wildcards here, so only the argument's
